@@ -251,7 +251,7 @@ pub fn run_c18(ctx: &Ctx, out: &mut Out) {
     if ctx.replay.is_some() {
         out.note("C18 replay re-runs rounds with the recorded parameters' seed (schedules cannot be replayed)");
     }
-    let n = ctx.share(32, 320);
+    let n = ctx.share(56, 480);
     for i in 0..n {
         // only a few rounds at a time may use all CPUs; shards run concurrently by design (more contention)
         c18_round(ctx, out, &mut rng, i * ctx.nshards + ctx.shard);
@@ -423,7 +423,7 @@ pub fn run_c19(ctx: &Ctx, out: &mut Out) {
     if ctx.replay.is_some() {
         out.note("C19 replay re-runs signal runs with the same parameters (the instant cannot be replayed exactly)");
     }
-    let n = ctx.share(36, 720);
+    let n = ctx.share(72, 1_080);
     for i in 0..n {
         // interleave so that every shard sees every phase/signal/worker combination over time
         c19_run(ctx, out, &mut rng, i * ctx.nshards + ctx.shard + (ctx.seed % 36));
